@@ -19,7 +19,7 @@ from synced_collections import SyncedCollection
 ID = "C11"
 LEVEL = "exploration"
 RULE = ("Enumerated product (complete in BOTH tiers, 'exhaustive': true) of entry point {constructor "
-        "data=, __setitem__ (key and value side), slice assignment, setdefault, update(mapping), "
+        "data=, __setitem__ (key and value side), slice assignment, setdefault (also for a key that another object has meanwhile removed from the backend), update(mapping), "
         "update(pairs), update(**kw), update(mapping, **kw), reset, append, extend, insert, +=} x "
         "target {root, nested dict, nested list, container at depth 3} x invalid item {non-str keys 1, "
         "1.5, None, True, (1,2); values object(), set, complex, class instance, Decimal and their falsy/empty variants (set(), frozenset(), 0j, Decimal(0), an instance with __len__ 0); for "
@@ -69,7 +69,7 @@ ITEMS = list(BAD_KEYS) + list(BAD_VALS) + list(DOTTED) + list(SYNCED)
 
 EMBED = ["direct", "in_dict", "in_list", "dict_list", "list_dict", "depth3", "sib_first", "sib_last"]
 
-DICT_ENTRIES = ["ctor", "setitem", "setitem_key", "setdefault", "setdefault_key", "update_map",
+DICT_ENTRIES = ["ctor", "setitem", "setitem_key", "setdefault", "setdefault_key", "setdefault_stale", "update_map",
                 "update_pairs", "update_kw", "update_both", "update_key", "reset",
                 # the argument is merged INTO an existing nested container (in-place update paths)
                 "update_merge_list", "update_merge_dict", "reset_merge_list", "reset_merge_dict"]
@@ -77,7 +77,7 @@ LIST_ENTRIES = ["ctor", "setitem", "setslice", "append", "extend", "insert", "ia
                 "reset_merge_tail", "reset_merge_elem"]
 MERGE = {"update_merge_list", "update_merge_dict", "reset_merge_list", "reset_merge_dict",
          "reset_merge_tail", "reset_merge_elem"}
-SINGLE = {"ctor", "setitem", "setitem_key", "setdefault", "setdefault_key", "append", "insert"}
+SINGLE = {"ctor", "setitem", "setitem_key", "setdefault", "setdefault_key", "setdefault_stale", "append", "insert"}
 
 TARGETS = ["root", "nested_dict", "nested_list", "depth3"]
 
@@ -289,6 +289,19 @@ def run_case(case, extra_embed=None):
             obj = obj[k]
         before_raw = res.raw()
         before_mem = root()
+        stale_key = None
+        if entry == "setdefault_stale":
+            # the key is in THIS object's memory, but another object has removed it from the
+            # backend since: the default is stored, so it must be validated
+            cont = get_path(doc, path)
+            stale_key = next(k for k, v in cont.items() if not isinstance(v, (dict, list)))
+            other = res.make(ci)
+            for k in path:
+                other = other[k]
+            del other[stale_key]
+            before_raw = res.raw()
+            before_mem = copy.deepcopy(doc)
+            del get_path(before_mem, path)[stale_key]
         val, keykind = make_item(item, d)
         badkey = None
         if entry.endswith("_key"):
@@ -305,7 +318,10 @@ def run_case(case, extra_embed=None):
         err = None
         made = None
         try:
-            made = call_entry(ci, obj, res, entry, arg, badkey)
+            if entry == "setdefault_stale":
+                obj.setdefault(stale_key, arg)
+            else:
+                made = call_entry(ci, obj, res, entry, arg, badkey)
         except (TypeError, ValueError) as e:
             err = e
         except Exception as e:  # noqa: BLE001
